@@ -224,7 +224,7 @@ def run(tier, seed):
     n_model = 0
     if okm:
         cases = [coq_case(h, r) for h, r in zip(hs, rs) if "panic" not in r]
-        okc, failing, clog = run_coq_cases("C04", IMPORTS, "hcase", "hcheck", cases, shard=max(4, len(cases) // 16 + 1), extra_defs=EXTRA, timeout=3000)
+        okc, failing, clog = run_coq_cases("C04", IMPORTS, "hcase", "hcheck", cases, shard=min(25, max(4, len(cases) // 16 + 1)), extra_defs=EXTRA, timeout=3000)
         n_model = len(cases)
         if not okc:
             res.tie_broken("correspondence: evaluating the trie model failed", clog)
